@@ -232,8 +232,8 @@ func dischargeAll(items []workItem, timeoutMs, workers int) {
 	var units []unit
 	for _, it := range items {
 		o := it.o
-		if o.Solver == "syntactic" || o.Solver == "ground" {
-			continue
+		if o.Solver == "syntactic" || o.Solver == "ground" || o.Kind == "regeneration" || o.Kind == "dispatch" {
+			continue // decided when generated
 		}
 		if len(o.Subs) > 1 && o.Batch != "" {
 			// many small goals over one context: one incremental solver run
